@@ -46,6 +46,10 @@ func evX(p *peer, sent []dgram, deadlineSet bool, bufCap int) string {
 			lvm, st = d.b[0], d.b[1]
 			org, rx, tx = be64(d.b[24:]), be64(d.b[32:]), be64(d.b[40:])
 		}
+		if d.wire != nil && len(d.wire) > scionBufLen {
+			ev = append(ev, "f")
+			continue
+		}
 		if d.wire != nil {
 			ev = append(ev, fmt.Sprintf("s:%s:%d:%d:%d:%s:%s:%s:-", d.facts, len(d.b), lvm, st, f64(org), f64(rx), f64(tx))+v)
 			continue
